@@ -98,7 +98,9 @@ def gen_universe(rng, n=None, heavy=0.08):
             rng.choice(['rsa2048', 'dsa2048', 'rsa1024'])
         keys['k%d' % i] = {'alg': alg, 'uid': [NAMES[i % len(NAMES)], rng.choice(['', 'c%d' % i]), 'k%d@example.org' % i],
                            'created_us': 1_400_000_000_000_000 + rng.choice([0, 0, 1, 86400 * 30, 86400 * 365 * 3]) * 1_000_000,
-                           'usage': rng.choice(['CS', 'CS', 'C', 'CSE'])}
+                           'usage': rng.choice(['CS', 'CS', 'C', 'CSE']),
+                           # the creation instant spelled as an aware datetime of another zone, or naive
+                           'created_tz': rng.choice([None, None, None, [2, 0], [-5, -30], [9, 0], 'naive_utc'])}
     if rng.random() < 0.15:
         # a secret key made by another implementation: a user id that is not valid UTF-8 and/or an ECDH subkey whose KDF
         # parameters are not PGPy's per-curve defaults
@@ -150,6 +152,9 @@ def gen_step(rng, sid, knames, weights=None):
         st['usage'] = ('E' if not world.can_sign(st['alg']) else rng.choice(['S', 'S', 'SA', 'A']))
         # a binding signature that itself expires (unusual, legal): the subkey stays a component of the key
         st['sig_expires_s'] = rng.choice([None, None, None, 3600, 86400 * 30])
+        if rng.random() < 0.3:
+            st['created_us'] = 1_400_000_000_000_000 + rng.choice([0, 86400 * 700, 86400 * 2000]) * 1_000_000
+            st['created_tz'] = rng.choice([None, [2, 0], [-5, -30], [9, 0]])
     if kind == 'rebind_subkey':
         st['usage'] = rng.choice(['S', 'E', 'ET', 'A', 'SA'])
         st['sig_expires_s'] = rng.choice([None, None, None, 3600, 86400 * 30])
@@ -168,7 +173,7 @@ def gen_step(rng, sid, knames, weights=None):
     if kind == 'export_import':
         st['half'] = rng.choice(['priv', 'priv', 'pub'])
         st['armor'] = rng.random() < 0.4
-        st['perturb'] = rng.sample(['trust', 'reframe_old', 'reframe_5', 'marker', 'crlf'], rng.choice([0, 0, 1, 2]))
+        st['perturb'] = rng.sample(['trust', 'reframe_old', 'reframe_5', 'marker', 'crlf', 'v3sig'], rng.choice([0, 0, 1, 2]))
     return st
 
 
@@ -630,6 +635,20 @@ def perturb_key_bytes(data, kinds, ctx, armor=False, label='PUBLIC KEY BLOCK', o
         elif k == 'marker':
             out = encode_packet(10, b'PGP') + out
             ctx.perturb('marker')
+            changed = True
+        elif k == 'v3sig':
+            # a well-formed version 3 certification (PGP 2.x / 5.x style) in front of the first signature of every user id and
+            # subkey: a reader that does not implement it passes over that one packet - and keeps everything behind it
+            v3 = encode_packet(2, bytes([3, 5, 0x10]) + (1_000_000_000).to_bytes(4, 'big') + bytes(range(8)) + bytes([1, 2, 0xAB, 0xCD])
+                               + (1021).to_bytes(2, 'big') + bytes([0x1F]) + bytes(127))
+            pk = split_packets(out)
+            res = bytearray()
+            for i, p in enumerate(pk):
+                res += p.raw
+                if p.tag in (13, 14, 7) and i + 1 < len(pk) and pk[i + 1].tag == 2:
+                    res += v3
+            out = bytes(res)
+            ctx.perturb('v3sig')
             changed = True
     if armor:
         text = own_armor if (own_armor is not None and not changed) else rarmor.enarmor(label, out)
